@@ -1,7 +1,7 @@
 (* C12 — the iHam orthoXML export describes the same HOG. *)
 From Coq Require Import List Arith Bool String Permutation.
-From PyHam Require Import Tax Ortho Loader Mapper Preds Nav Export Filter Hist Spell.
-From PyHam.proofs Require Import ExplicitFacts ExportFacts LoftFacts SpellFacts RoundTripFacts.
+From PyHam Require Import Tax Ortho Loader Mapper Preds Nav Export Filter Hist Spell Whole.
+From PyHam.proofs Require Import ExplicitFacts ExportFacts LoftFacts SpellFacts WholeFacts RoundTripFacts DocRoundTripFacts.
 Import ListNotations.
 
 (* Proved for every loaded HOG (any shape, no alignment hypothesis): the exported groups reference exactly
@@ -14,9 +14,12 @@ Import ListNotations.
    with any gene table that places the member genes at their species, the member genes being pairwise different
    and not yet carrying a LOFT id in that state - yields a HOG that matches the same
    history: same members, same taxon for every sub-HOG, same duplication grouping (c12_roundtrip).
-   Not proved: the species section of the exported document is only shown to declare the right genes, the
-   whole-document re-load (species blocks resolved by name) and the iHam page assembly are checked on the
-   implementation, which really re-loads every export. *)
+   Whole document (c12_document_roundtrip): for an aligned HOG whose member genes are pairwise different, over a
+   tree with pairwise different node names, the exported document (species blocks and groups) is a consistent
+   input; loading it with the same species tree succeeds and yields exactly one top-level HOG, which matches the
+   history of the original HOG, and the re-loaded forest satisfies wfbc.
+   Not modelled (checked on the implementation only): the HTML page assembly of create_iHam, which embeds this
+   orthoXML, the species subtree and one record per member gene. *)
 Theorem c12_references : forall t h ce, Permutation (flat_map refs_of (export t ce h)) (genes_of h).
 Proof. intros t h ce. exact (export_refs t h ce). Qed.
 Print Assumptions c12_references.
@@ -47,6 +50,15 @@ Theorem c12_roundtrip : forall t genes o p m ks s,
     matches (hist_of x) x /\ matches (hist_of x) x' /\ htax x' = htax x /\ wf_node t x' = true.
 Proof. exact export_roundtrip. Qed.
 Print Assumptions c12_roundtrip.
+
+Theorem c12_document_roundtrip : forall t protid o p m ks,
+  names_inj t -> wf_node t (HHog o p m ks) = true -> NoDup (genes_of (HHog o p m ks)) ->
+  let x := HHog o p m ks in
+  exists l top, load t (export_doc t protid x) = Ok l /\ l_tops l = [top] /\
+    matches (hist_of x) x /\ matches (hist_of x) (snd top) /\ htax (snd top) = htax x /\ wf_node t (snd top) = true /\
+    wfbc t (forest_of l) = true.
+Proof. exact export_doc_roundtrip. Qed.
+Print Assumptions c12_document_roundtrip.
 
 Local Open Scope string_scope.
 Definition m0 : hmeta := {| m_id := Some "f"; m_og := None; m_props := []; m_scores := []; m_synth := false |}.
